@@ -705,7 +705,11 @@ def gen_pins():
     sv = find_func(st, "TDGLSolver", "solve")
     starts = []
 
+    def terminates(body):
+        return bool(body) and isinstance(body[-1], (ast.Return, ast.Raise))
+
     def walk_solve(body, conds):
+        conds = list(conds)
         for stn in body:
             for n in ast.walk(stn) if not isinstance(stn, (ast.If, ast.With, ast.For, ast.While, ast.Try)) else []:
                 if isinstance(n, ast.Dict):
@@ -717,14 +721,24 @@ def gen_pins():
             if isinstance(stn, ast.If):
                 walk_solve(stn.body, conds + [ast.unparse(stn.test)])
                 walk_solve(stn.orelse, conds + ["not (" + ast.unparse(stn.test) + ")"])
+                # an `if` whose body ends in return / raise guards everything after it (early-return style = else branch)
+                if terminates(stn.body) and not stn.orelse:
+                    conds = conds + ["not (" + ast.unparse(stn.test) + ")"]
             elif isinstance(stn, (ast.With, ast.For, ast.While)):
                 walk_solve(stn.body, conds)
             elif isinstance(stn, ast.Try):
                 walk_solve(stn.body, conds)
 
     walk_solve(sv.body, [])
+    # helper methods called from `solve` as self.<name>(...) are looked through (one level)
+    methods = {fn.name: fn for fn in class_funcs(st, "TDGLSolver")}
+    for n in ast.walk(sv):
+        if isinstance(n, ast.Call) and isinstance(n.func, ast.Attribute) and isinstance(n.func.value, ast.Name) and n.func.value.id == "self" \
+                and n.func.attr in methods and n.func.attr not in ("solve", "update") and "induced_vector_potential" in ast.unparse(methods[n.func.attr]):
+            walk_solve(methods[n.func.attr].body, [])
     # alias-insensitive normal form: `self.x` and a local `x` hoisted from it read the same
-    out["seed_induced"] = re.sub(r"\bself\.", "", " ; ".join(starts))
+    # (the drop of duplicates keeps a dict literal that `ast.walk` meets both in an assignment and in a return once)
+    out["seed_induced"] = re.sub(r"\bself\.", "", " ; ".join(dict.fromkeys(starts)))
     lines = [HEADER.format(src="tdgl/solver/solver.py, tdgl/solver/runner.py (source pins)", sha=sha_of(solver) + "/" + sha_of(runner)), "namespace Tdgl.Gen\n"]
     for k, v in out.items():
         lines.append(f"def pin_{k} : String := {lean_str(v)}")
